@@ -130,8 +130,8 @@ theorem pawnSrc (p : Position) (ok : BoardOK p.board) (hs : p.side ≤ 1) (pinne
   rw [bnot_testBit _ _ h1.1] at h2
   exact ⟨h1.1, h1.2, by simpa using h2⟩
 
-theorem PawnMv.gen {p : Position} (ok : BoardOK p.board) (hs : p.side ≤ 1) {pinned cm : BB} {m idx f t k : Nat}
-    (h : PawnMv p.side ((BBs.of p).ck p.side PAWN &&& bnot pinned) cm m idx f t k) : GenMv p pinned m PAWN false := by
+theorem PawnMv.gen {p : Position} (ok : BoardOK p.board) (hs : p.side ≤ 1) {pinned empty pm cm : BB} {m idx f t k : Nat}
+    (h : PawnMv p.side ((BBs.of p).ck p.side PAWN &&& bnot pinned) empty pm cm m idx f t k) : GenMv p pinned m PAWN false := by
   obtain ⟨_, hb, hp⟩ := pawnSrc p ok hs pinned f h.pawn
   have hoff := h.off
   have hpr := h.promo
